@@ -576,7 +576,7 @@ class NodeSpace:
                 if not isinstance(fn, ast.FunctionDef):
                     continue
                 decos = {ast.unparse(d) for d in fn.decorator_list}
-                f = build_function(fn, sp.ns, sp.vc, label=f"{cls}.{name}")
+                f = build_function(fn, sp.ns, sp.vc, label=f"{cls}.{name}", module=module)
                 if "staticmethod" in decos:
                     return f
                 if "classmethod" in decos:
@@ -958,7 +958,8 @@ class LoopEnv:
         """the local called `name`, or -- after a rename -- the only local of that kind"""
         if name in self.loc and isinstance(self.loc[name], cls):
             return self.loc[name]
-        cands = [v for k, v in self.loc.items() if isinstance(v, cls) and not k.startswith("__")]
+        names = getattr(self, "entry_names", None)
+        cands = [v for k, v in self.loc.items() if isinstance(v, cls) and not k.startswith("__") and (names is None or k in names)]
         if len(cands) == 1:
             return cands[0]
         raise KeyError(name)
@@ -1046,6 +1047,7 @@ class VC:
         if inv is None:
             raise Unsupported(f"loop {ordinal} of {fn} has no invariant")
         env = LoopEnv(lid, seq, dict(loc), snapshot_all(c))
+        env.entry_names = {k for k, v in loc.items() if v is not _UNBOUND}      # what is bound before the loop (loop-local temporaries are not)
         env.inv = inv
         env.kindseq = ("while",) if isinstance(ordinal, str) else self._classify(seq)
         # initial check
@@ -1465,7 +1467,29 @@ def build_main(outer: ast.FunctionDef, ns: Dict[str, Any], vc: VC, standins: Dic
     return g[outer.name]
 
 
-def build_function(fn: ast.FunctionDef, ns: Dict[str, Any], vc: VC, label: Optional[str] = None, bounded_whiles=()):
+class _LazyGlobals(dict):
+    """globals of a compiled unit: a name that is missing but is a module-level function of the real module (a helper the code under
+    contract was refactored to call) is compiled on demand with the same rewrites"""
+
+    def __init__(self, base, module, vc):
+        super().__init__(base)
+        self._module, self._vc = module, vc
+
+    def __missing__(self, name):
+        if self._module is None or name.startswith("__"):
+            raise KeyError(name)
+        try:
+            fn = core.find_def(self._module, name)
+        except LookupError:
+            raise KeyError(name)
+        if not isinstance(fn, ast.FunctionDef):
+            raise KeyError(name)
+        f = build_function(fn, dict(self), self._vc, label=name, module=self._module)
+        self[name] = f
+        return f
+
+
+def build_function(fn: ast.FunctionDef, ns: Dict[str, Any], vc: VC, label: Optional[str] = None, bounded_whiles=(), module: Optional[str] = None):
     """a module-level function or a method, compiled on its own with the loop rewrite (`label` names it in loop ids)"""
     f2 = copy.deepcopy(fn)
     f2.decorator_list = []
@@ -1474,7 +1498,7 @@ def build_function(fn: ast.FunctionDef, ns: Dict[str, Any], vc: VC, label: Optio
     f2 = strip_all_annotations(f2)
     mod = ast.Module(body=[f2], type_ignores=[])
     ast.fix_missing_locations(mod)
-    g = dict(ns)
+    g = _LazyGlobals(ns, module, vc)
     g["__vc"] = vc
     exec(compile(mod, f"<hoare:{label or name}>", "exec"), g)
     return g[name]
